@@ -165,8 +165,11 @@ def coords():
     return st.builds(lambda a, b: ['coord', a, b], lat, lng)
 
 
+JSONLIKE = ['[x]', '"q"', '{a}', '[1]', '{"a":1}', '"s:x"', '[]', '{}', '""', '["n:1"]', '[x}', '"x]', '{"meta":{"ver":"3.0"},"cols":[],"rows":[]}']
+
+
 def strs():
-    return text().map(lambda s: ['str', s])
+    return st.one_of(text(), text(), text(), st.sampled_from(JSONLIKE)).map(lambda s: ['str', s])
 
 
 def uris(conformant=False):
@@ -358,15 +361,19 @@ def lit_value(lit):
     return float(lit.replace('_', ''))
 
 
-def spelled_numbers(excl=frozenset()):
-    lits = number_literals().map(lambda l: ['num', lit_value(l), l])
+def spelled_numbers(excl=frozenset(), fmt='zinc'):
+    lits = number_literals(fmt == 'zinc').map(lambda l: ['num', lit_value(l), l])
     specials = st.sampled_from([['num', float('inf')], ['num', float('-inf')], ['num', float('nan')]])
-    return st.one_of(lits, lits, lits, specials, numbers(excl))
+    parts = [lits, lits, lits, specials, numbers(excl)]
+    if fmt == 'json':
+        raw = st.one_of(st.integers(-2 ** 53, 2 ** 53), st.integers(-100, 100), finite_floats()).map(lambda v: ['num', v, 'raw'])
+        parts += [raw, raw]
+    return st.one_of(*parts)
 
 
-def spelled_quantities(excl=frozenset()):
+def spelled_quantities(excl=frozenset(), fmt='zinc'):
     import math
-    return st.builds(lambda l, u: ['qty', lit_value(l), u, l], number_literals(), units(excl)).filter(
+    return st.builds(lambda l, u: ['qty', lit_value(l), u, l], number_literals(fmt == 'zinc'), units(excl)).filter(
         lambda q: math.isfinite(q[1]))
 
 
@@ -382,9 +389,9 @@ def zoneless_datetimes(whole_hours=False):
 
 
 @_cached
-def _spelled_scalars(ver, excl, whole_hours):
+def _spelled_scalars(ver, excl, whole_hours, fmt='zinc'):
     parts = [st.just(['marker']), st.just(['remove']), st.booleans().map(lambda b: ['bool', b]),
-             spelled_numbers(excl), spelled_quantities(excl), strs(), strs(), uris(True), refs(excl),
+             spelled_numbers(excl, fmt), spelled_quantities(excl, fmt), strs(), strs(), uris(fmt == 'zinc'), refs(excl),
              dates(), times(), datetimes(), zoneless_datetimes(whole_hours), coords(), st.just(['null']), bins()]
     if ver == '3.0':
         parts += [st.just(['na']), xstrs()]
@@ -392,24 +399,24 @@ def _spelled_scalars(ver, excl, whole_hours):
 
 
 @_cached
-def _spelled_values(ver, depth, excl, whole_hours):
-    sc = _spelled_scalars(ver, excl, whole_hours)
+def _spelled_values(ver, depth, excl, whole_hours, fmt='zinc'):
+    sc = _spelled_scalars(ver, excl, whole_hours, fmt)
     if ver != '3.0' or depth <= 0:
         return sc
-    inner = _spelled_values(ver, depth - 1, excl, whole_hours)
+    inner = _spelled_values(ver, depth - 1, excl, whole_hours, fmt)
     lists = st.lists(inner, max_size=3).map(lambda l: ['list', l])
     dicts = st.lists(st.tuples(dict_keys(), inner), max_size=3, unique_by=lambda kv: kv[0]).map(
         lambda kv: ['dict', [list(x) for x in kv]])
-    grids_ = _spelled_grids('3.0', depth - 1, excl, whole_hours, 2, 2, 1)
+    grids_ = _spelled_grids('3.0', depth - 1, excl, whole_hours, 2, 2, 1, fmt)
     return st.one_of(sc, sc, sc, lists, dicts, grids_)
 
 
 @_cached
-def _spelled_grids(ver, depth, excl, whole_hours, max_cols, max_rows, max_meta):
+def _spelled_grids(ver, depth, excl, whole_hours, max_cols, max_rows, max_meta, fmt='zinc'):
     col_names = st.lists(names(), min_size=1, max_size=max_cols, unique=True)
 
     def metas(v, n, forbid):
-        return st.lists(st.tuples(names().filter(lambda x: x not in forbid), _spelled_values(v, depth, excl, whole_hours)),
+        return st.lists(st.tuples(names().filter(lambda x: x not in forbid), _spelled_values(v, depth, excl, whole_hours, fmt)),
                         max_size=n, unique_by=lambda kv: kv[0]).map(lambda kv: [list(x) for x in kv])
 
     @st.composite
@@ -417,7 +424,7 @@ def _spelled_grids(ver, depth, excl, whole_hours, max_cols, max_rows, max_meta):
         v = ver if ver is not None else draw(st.sampled_from(['2.0', '3.0']))
         meta = draw(metas(v, max_meta, ('ver',)))
         cols = [[n, draw(metas(v, 2, ('name',))) if draw(st.integers(0, 3)) == 0 else []] for n in draw(col_names)]
-        cell = _spelled_values(v, depth, excl, whole_hours)
+        cell = _spelled_values(v, depth, excl, whole_hours, fmt)
         rows = []
         for _ in range(draw(st.integers(0, max_rows))):
             row = []
@@ -431,8 +438,8 @@ def _spelled_grids(ver, depth, excl, whole_hours, max_cols, max_rows, max_meta):
     return build()
 
 
-def spelled_grids(ver=None, depth=2, excl=frozenset(), whole_hours=False, max_cols=3, max_rows=3, max_meta=2):
-    return _spelled_grids(ver, depth, frozenset(excl), whole_hours, max_cols, max_rows, max_meta)
+def spelled_grids(ver=None, depth=2, excl=frozenset(), whole_hours=False, max_cols=3, max_rows=3, max_meta=2, fmt='zinc'):
+    return _spelled_grids(ver, depth, frozenset(excl), whole_hours, max_cols, max_rows, max_meta, fmt)
 
 
 def spelling_plans(max_size=80):
